@@ -168,6 +168,26 @@ def main(rep, tier, only):
                 if not ok:
                     why = "%s() is taken from %s, not from the wrapped engine %s: the distributions scale the engine's output with a wrong range" % (nm, recs, gen)
             (rep.ok if ok else rep.fail)("DEL", "basic_pseudo::" + nm + "<" + (fn.get("rec_targs") or ["?"])[0].split("<")[0] + ">", F.primary_site(fn), F.describe(fn)[:160], **({"how": t} if ok else {"why": why}))
+    # constructors of basic_pseudo hand the caller's seed / seed sequence to the wrapped engine unchanged (the sequence produced
+    # must be the wrapped engine's for the same seed, for EVERY seed)
+    seenp = set()
+    for fn in L.method_fns(db, R + "generator::basic_pseudo"):
+        if fn.get("kind") != "ctor" or len(fn.get("params", [])) != 1 or fn.get("ctor_kind") in ("copy", "move"):
+            continue
+        u = fn["_unit"]
+        pty = u.ty(fn["params"][0]["t"]) or ""
+        kind = "seed" if "seed" in pty.lower() and "seq" not in pty.lower() else "seed_seq"
+        key = "basic_pseudo::basic_pseudo(%s)<%s>" % (kind, (fn.get("rec_targs") or ["?"])[0].split("<")[0])
+        if key in seenp:
+            continue
+        seenp.add(key)
+        inits = {i["field"]: T.show(T.norm(u, i["init"])) for i in fn.get("inits", []) if i.get("field")}
+        wi = re.sub(r"\s", "", inits.get("wrapped_", ""))
+        p0 = fn["params"][0]["name"]
+        ok = bool(re.match(r"^[\w:<>, ]*[({]%s(\.get\(\))?[)}]$" % re.escape(p0), wi)) or wi in (p0, p0 + ".get()")
+        (rep.ok if ok else rep.fail)("DEL", key, F.primary_site(fn), F.describe(fn)[:160],
+                                     **({"how": "wrapped_(%s)" % kind} if ok else
+                                        {"why": "the wrapped engine is initialised with `%s`; expected the caller's %s itself, unchanged: every seed must give the wrapped engine's sequence for that seed" % (inits.get("wrapped_", "?"), kind)}))
     # ---- PARAM
     specs = {
         "uniform_int": (("min_", "max_"), ("a", "b")),
